@@ -1593,3 +1593,75 @@ func scenReaddRemoved(e *engineA) error {
 	e.sleepHB(4, 8)
 	return e.finish()
 }
+
+func init() { scenarios["snapshot-vs-install"] = scenSnapshotVsInstall }
+
+// scenSnapshotVsInstall (C19 / C09 / C10): a follower is asked for a snapshot;
+// the state is captured, and before the file is written the follower falls
+// behind a compaction and is brought back by snapshot installation. Then the
+// snapshot it had started is finished. The older snapshot must not replace
+// the newer one: the snapshot index does not go back, a restart finds a
+// snapshot and a log that fit, and the node stays usable.
+func scenSnapshotVsInstall(e *engineA) error {
+	e.prof = profiles["snapshot"]
+	if err := e.boot(3); err != nil {
+		return err
+	}
+	e.cl.startInfoSampler(e.hb() / 2)
+	l := e.cl.leader()
+	if l == nil {
+		return fmt.Errorf("no leader")
+	}
+	pad := 90 + 10*e.rng.Intn(4)
+	for i := 0; i < 5+e.rng.Intn(15); i++ {
+		e.cl.fsmOpPad(1, l, "update", pad)
+	}
+	f := e.others(l)[e.rng.Intn(2)]
+	e.sleepHB(1, 2)
+	e.rc.emit(&ev.Rec{K: "fault", Op: "snapshot-held-after-capture", Nid: f.nid})
+	hit := e.pc.hold(f.dir, "snap.captured")
+	go e.cl.takeSnapshot(f, 0)
+	select {
+	case <-hit:
+	case <-time.After(40 * e.hb()):
+		e.pc.release(f.dir, "snap.captured")
+		return fmt.Errorf("snapshot goroutine never reached the capture point")
+	}
+	e.isolate(f, true)
+	for i := 0; i < 15+e.rng.Intn(30); i++ {
+		if r := e.cl.fsmOpPad(1, l, "update", pad); !r.ok {
+			break
+		}
+	}
+	e.sleepHB(4, 5)
+	e.cl.takeSnapshot(l, 0)
+	e.waitFor(30, func() bool {
+		info, ok := l.info(false)
+		return ok && info.FirstLogIndex > 4
+	})
+	linfo, _ := l.info(false)
+	e.rc.emit(&ev.Rec{K: "fault", Op: "heal-then-finish-old-snapshot", Nid: f.nid})
+	e.isolate(f, false)
+	e.waitFor(60, func() bool {
+		info, ok := f.info(false)
+		return ok && info.SnapshotIndex >= linfo.SnapshotIndex && linfo.SnapshotIndex > 0
+	})
+	e.pc.release(f.dir, "snap.captured")
+	e.sleepHB(2, 4)
+	for i := 0; i < 3; i++ {
+		e.cl.fsmOpPad(1, l, "update", pad)
+	}
+	f.info(true)
+	if e.rng.Intn(2) == 0 {
+		// the follower labels its next snapshot itself
+		e.cl.takeSnapshot(f, 0)
+		e.sleepHB(1, 2)
+	}
+	e.rc.emit(&ev.Rec{K: "fault", Op: "restart", Nid: f.nid})
+	if _, err := e.cl.restart(f.nid); err != nil {
+		e.rc.emit(&ev.Rec{K: "restart-failed", Cid: e.cl.cid, Nid: f.nid, Err: err.Error()})
+	}
+	e.startClients(2, map[string]int{"update": 3, "read": 1})
+	e.sleepHB(4, 8)
+	return e.finish()
+}
